@@ -5,19 +5,15 @@ import (
 	"fmt"
 	"sync"
 
-	"github.com/getlantern/goexpr"
 	"github.com/getlantern/zenodb/core"
 	"github.com/getlantern/zenodb/sql"
 )
 
 func planSubQueries(opts *Opts, query *sql.Query) (func(ctx context.Context) ([][]interface{}, error), error) {
-	var subQueries []*sql.SubQuery
-	query.Where.WalkLists(func(list goexpr.List) {
-		sq, ok := list.(*sql.SubQuery)
-		if ok {
-			subQueries = append(subQueries, sq)
-		}
-	})
+	// Note - we use the sub queries collected while parsing rather than walking
+	// query.Where with WalkLists, because not all goexpr implementations of
+	// WalkLists are safe to call (geo's REGION_CITY recurses endlessly).
+	subQueries := query.WhereSubQueries
 	if len(opts.SubQueryResults) == len(subQueries) {
 		for i, sq := range subQueries {
 			sq.SetResult(opts.SubQueryResults[i])
